@@ -1051,6 +1051,43 @@ def _seq(run, repo, world, folder):
     gens.append((c.qname + ".construct#sn", repo.mod(LHAS),
                  _steps_inline(fn, "self.sn"), (init_sn, init_sn), (1, 255),
                  fn))
+    # the other reports of the legacy hasseb driver that carry the counter
+    # (configuration, firmware query): each advances it the same way before
+    # it is packed - a report that re-uses the number of the one before it
+    # repeats a sequence number, and on a fresh driver sends 0
+    n_other = 0
+    for k in world.classes_in(LHAS):
+        for name, (kind, f2) in sorted(k.methods.items()):
+            if name in ("construct", "__init__"):
+                continue
+            f3 = normalise(f2, world, LHAS, k, aliases=False,
+                           primitives=("construct", "send", "receive",
+                                       "extract", "run_sequence"))
+            packs = [n for n in ast.walk(f3) if isinstance(n, ast.Call) and
+                     unparse(n.func).endswith("pack") and any(
+                         unparse(a) == "self.sn" for a in n.args)]
+            if not packs:
+                continue
+            n_other += 1
+            stores = [n for n in ast.walk(f3) if isinstance(
+                n, ast.Assign) and unparse(n.targets[0]) == "self.sn"]
+            if not stores:
+                run.ob("R-SEQ", "%s.%s#sn#advances" % (k.qname, name), False,
+                       "%s.%s packs self.sn into a report without advancing "
+                       "it: the report repeats the sequence number of the "
+                       "one written before it (0 on a fresh driver, outside "
+                       "1..255)" % (k.qname, name), where(repo.mod(LHAS), f2))
+                continue
+            run.ob("R-SEQ", "%s.%s#sn#advances" % (k.qname, name),
+                   min(x.lineno for x in stores) < min(
+                       x.lineno for x in packs),
+                   "%s.%s advances self.sn only after it was packed"
+                   % (k.qname, name), where(repo.mod(LHAS), f2))
+            gens.append(("%s.%s#sn" % (k.qname, name), repo.mod(LHAS),
+                         _steps_inline(f3, "self.sn"), (init_sn, init_sn),
+                         (1, 255), f3))
+    run.floor("legacy hasseb reports other than DALI frames that carry the "
+              "sequence number", n_other, 2)
     run.floor("sequence number generators", len(gens), 3)
     for (key, mod, steps, init, rng, fn) in gens:
         if steps is None:
